@@ -1,6 +1,7 @@
 SPECIFICATION Spec
 CONSTANTS MaxRank = 2
  Quota = 3
+ Quota4R = 100
  Quota4 = 40
 INVARIANT WellFormedOK
 INVARIANT ShapeOK
